@@ -587,6 +587,39 @@ theorem plan_spec (t : Tbl) (w : Bool) (ok : TblOK t) (vv : VV) (gid n : Nat) (d
             · rw [t3]; exact m4
             · rw [t6, t5]; exact m6
 
+/-- the infrastructure a completed run holds is either generated by this very run or the one
+stored in the folder -/
+theorem mem_fresh_or_loaded (t : Tbl) (vv : VV) (gid n : Nat) (d : Disk) (g : Gen)
+    (h : (plan t vv gid n d).outcome = some g) : g = ⟨vv, gid⟩ ∨ d.infra = .ok g := by
+  unfold plan at h
+  split at h
+  · simp at h
+  · rename_i s1 force h1
+    split at h
+    · simp at h
+    · rename_i s2 mem hfe h2
+      split at h
+      · simp at h
+      · split at h
+        · simp at h
+        · simp only [Option.some.injEq] at h
+          subst h
+          unfold infraStage at h2
+          split at h2
+          · simp only [Option.some.injEq, Prod.mk.injEq] at h2
+            exact Or.inl h2.2.1.symm
+          · split at h2
+            · split at h2
+              · split at h2
+                · rename_i g' hg'
+                  simp only [Option.some.injEq, Prod.mk.injEq] at h2
+                  rw [← h2.2.1]
+                  exact Or.inr hg'
+                · simp at h2
+              · simp only [Option.some.injEq, Prod.mk.injEq] at h2
+                exact Or.inl h2.2.1.symm
+            · simp at h2
+
 /-! ### histories -/
 
 theorem inv_exec (t : Tbl) (w : Bool) (ok : TblOK t) (s : St) (op : Op) (hi : Inv t w s.disk)
